@@ -583,7 +583,8 @@ def _is_same_type(ty: Type | SymbolNode | None, expected: TypeLike) -> bool:
         return _is_same_type(ty.alias.target, expected)
 
     if isinstance(ty, TupleType) and expected is tuple:
-        return True
+        # A NamedTuple is a TupleType too, but it is not exactly a `tuple`
+        return ty.partial_fallback.type.fullname == "builtins.tuple"
 
     if isinstance(ty, AnyType) and expected is Any:
         return True
